@@ -4,6 +4,9 @@ import Modbus.Spec.Lengths
 import Modbus.Lemmas.Basic
 import Modbus.Lemmas.Bytes
 import Modbus.Lemmas.Scan
+import Modbus.Lemmas.TcpHeader
+import Modbus.Lemmas.Reception3
+import Modbus.Lemmas.Total
 import Modbus.Props.C08
 import Modbus.Props.C09
 /-
@@ -19,6 +22,11 @@ Reading of the property (DESIGN.md §6 C14):
 * "noise that cannot itself be read as a plausible frame start" = the attempt at every noise offset,
   in context, is an error (that is what the code can observe); sufficient: the byte the predictor
   reads as function code at that offset is not a function code it knows;
+  for TCP, since the repair of `tcp::decode` (header checked as soon as visible), also: the two bytes
+  the offset reads as protocol identifier are not both zero — `tcp_attempt_rejects_bad_protocol`,
+  `tcp_attempt_rejects_bad_length`, `tcp_*_resync_stray`, `tcp_*_resync_nonzero_noise`,
+  `tcp_gives_up_nonzero_protocol`; what is still answered 'incomplete' although refutable:
+  `tcp_req_stray_still_waits_witness`;
 * clause 3 carries the premise `buf.length ≥ 257`: with at most 256 bytes and every offset rejected the
   scanner says "incomplete" by design (`*_incomplete_short`), a unit test of the crate asserts it.
 -/
@@ -88,11 +96,9 @@ theorem rtu_rsp_reject (raw : Bytes) (c : UInt8) (h1 : raw[1]? = some c) (hc : r
   simp only [Res.bind'_ok]
   rw [if_neg k1, if_neg k2, if_neg k3, if_neg k4, if_neg k5]
 
-/-- TCP, request direction: the eighth byte (function code position after the 7-byte MBAP header) is
-not a known function code ⇒ error -/
-theorem tcp_req_reject (raw : Bytes) (c : UInt8) (h7 : raw[7]? = some c) (hc : reqKnown c = false) :
-    Tcp.attemptReq raw = .err (.fnCode c) := by
-  apply mkAttempt_predict_err
+/-- the TCP request predictor rejects an eighth byte that is not a known function code -/
+theorem tcp_requestPduLen_reject (raw : Bytes) (c : UInt8) (h7 : raw[7]? = some c) (hc : reqKnown c = false) :
+    Tcp.requestPduLen raw = .err (.fnCode c) := by
   have hl : 7 < raw.length := by
     rcases Nat.lt_or_ge 7 raw.length with h | h
     · exact h
@@ -105,10 +111,8 @@ theorem tcp_req_reject (raw : Bytes) (c : UInt8) (h7 : raw[7]? = some c) (hc : r
   simp only [Res.bind'_ok]
   rw [if_neg k1, if_neg k2, if_neg k3, if_neg k4, if_neg k5, if_neg k6]
 
-/-- TCP, response direction -/
-theorem tcp_rsp_reject (raw : Bytes) (c : UInt8) (h7 : raw[7]? = some c) (hc : rspKnown c = false) :
-    Tcp.attemptRsp raw = .err (.fnCode c) := by
-  apply mkAttempt_predict_err
+theorem tcp_responsePduLen_reject (raw : Bytes) (c : UInt8) (h7 : raw[7]? = some c) (hc : rspKnown c = false) :
+    Tcp.responsePduLen raw = .err (.fnCode c) := by
   have hl : 7 < raw.length := by
     rcases Nat.lt_or_ge 7 raw.length with h | h
     · exact h
@@ -121,10 +125,63 @@ theorem tcp_rsp_reject (raw : Bytes) (c : UInt8) (h7 : raw[7]? = some c) (hc : r
   simp only [Res.bind'_ok]
   rw [if_neg k1, if_neg k2, if_neg k3, if_neg k4, if_neg k5]
 
+/-- a TCP attempt whose predictor rejects the function code byte: the attempt is an error, namely the
+predictor's if the protocol identifier (bytes 2, 3) is 0 and `ProtocolNotModbus` otherwise -/
+theorem tcp_attempt_reject (pred : Bytes → Res (Option Nat)) (raw : Bytes) (c : UInt8)
+    (h7 : raw[7]? = some c) (hp : pred raw = .err (.fnCode c)) :
+    (raw[2]? = some 0 ∧ raw[3]? = some 0 ∧ Tcp.attemptOf pred raw = .err (.fnCode c)) ∨
+    (¬ (raw[2]? = some 0 ∧ raw[3]? = some 0) ∧ ∃ p, Tcp.attemptOf pred raw = .err (.protocolNotModbus p)) := by
+  have hl : 7 < raw.length := by
+    rcases Nat.lt_or_ge 7 raw.length with h | h
+    · exact h
+    · rw [List.getElem?_eq_none h] at h7; cases h7
+  have e2 : raw[2]? = some raw[2] := List.getElem?_eq_getElem (by omega)
+  have e3 : raw[3]? = some raw[3] := List.getElem?_eq_getElem (by omega)
+  rcases Tcp.checkProtocolId_cases raw with hc | ⟨_, hb, hc⟩
+  · left
+    obtain ⟨z2, z3⟩ := (Tcp.checkProtocolId_eq_ok_iff raw).1 hc (by omega)
+    refine ⟨by rw [e2, z2], by rw [e3, z3], ?_⟩
+    rw [Tcp.attemptOf_proto_ok _ hc]
+    exact mkAttempt_predict_err _ _ _ _ _ hp
+  · right
+    refine ⟨?_, _, Tcp.attemptOf_proto_err _ hc⟩
+    rw [e2, e3]
+    intro h
+    exact hb ⟨Option.some.inj h.1, Option.some.inj h.2⟩
+
+/-- TCP, request direction: the eighth byte (function code position after the 7-byte MBAP header) is
+not a known function code ⇒ error: `FnCode` if the protocol identifier read at bytes 2, 3 is 0, else
+`ProtocolNotModbus` (since the repair of `tcp::decode` the identifier is checked first; before it the
+conclusion was `= .err (.fnCode c)` unconditionally) -/
+theorem tcp_req_reject (raw : Bytes) (c : UInt8) (h7 : raw[7]? = some c) (hc : reqKnown c = false) :
+    (raw[2]? = some 0 ∧ raw[3]? = some 0 ∧ Tcp.attemptReq raw = .err (.fnCode c)) ∨
+    (¬ (raw[2]? = some 0 ∧ raw[3]? = some 0) ∧ ∃ p, Tcp.attemptReq raw = .err (.protocolNotModbus p)) :=
+  tcp_attempt_reject Tcp.requestPduLen raw c h7 (tcp_requestPduLen_reject raw c h7 hc)
+
+/-- TCP, response direction -/
+theorem tcp_rsp_reject (raw : Bytes) (c : UInt8) (h7 : raw[7]? = some c) (hc : rspKnown c = false) :
+    (raw[2]? = some 0 ∧ raw[3]? = some 0 ∧ Tcp.attemptRsp raw = .err (.fnCode c)) ∨
+    (¬ (raw[2]? = some 0 ∧ raw[3]? = some 0) ∧ ∃ p, Tcp.attemptRsp raw = .err (.protocolNotModbus p)) :=
+  tcp_attempt_reject Tcp.responsePduLen raw c h7 (tcp_responsePduLen_reject raw c h7 hc)
+
+/-- either way the offset is rejected -/
+theorem tcp_req_reject_isErr (raw : Bytes) (c : UInt8) (h7 : raw[7]? = some c) (hc : reqKnown c = false) :
+    (Tcp.attemptReq raw).isErr = true := by
+  rcases tcp_req_reject raw c h7 hc with ⟨_, _, h⟩ | ⟨_, _, h⟩ <;> rw [h] <;> rfl
+
+theorem tcp_rsp_reject_isErr (raw : Bytes) (c : UInt8) (h7 : raw[7]? = some c) (hc : rspKnown c = false) :
+    (Tcp.attemptRsp raw).isErr = true := by
+  rcases tcp_rsp_reject raw c h7 hc with ⟨_, _, h⟩ | ⟨_, _, h⟩ <;> rw [h] <;> rfl
+
 example : Rtu.attemptReq [0x42, 0x42, 0x11] = .err (.fnCode 0x42) :=
   rtu_req_reject _ 0x42 (by decide) (by decide)
-example : Tcp.attemptRsp [0, 1, 2, 3, 4, 5, 6, 0x11] = .err (.fnCode 0x11) :=
-  tcp_rsp_reject _ 0x11 (by decide) (by decide)
+example : Tcp.attemptRsp [0, 1, 0, 0, 4, 5, 6, 0x11] = .err (.fnCode 0x11) := by
+  rcases tcp_rsp_reject [0, 1, 0, 0, 4, 5, 6, 0x11] 0x11 (by decide) (by decide) with ⟨_, _, h⟩ | ⟨h, _⟩
+  · exact h
+  · exact absurd (by decide) h
+example : Tcp.attemptRsp [0, 1, 2, 3, 4, 5, 6, 0x11] = .err (.protocolNotModbus 0x0203) := by decide +kernel
+example : (Tcp.attemptRsp [0, 1, 2, 3, 4, 5, 6, 0x11]).isErr = true :=
+  tcp_rsp_reject_isErr _ 0x11 (by decide) (by decide)
 
 /-- the other way a noise offset is rejected on RTU: a known function code whose predicted frame is all
 there but fails the CRC (this is what happens at the last noise byte in the 0x42 examples below) -/
@@ -426,7 +483,7 @@ theorem tcp_req_resync (noise frame rest : Bytes) (f : Tcp.Frame)
   apply tcp_req_found noise frame rest f hn _ hatt
   intro i hi
   obtain ⟨c, hc1, hc2⟩ := noise_byte_mem 7 noise frame rest i hi (by have := (tcp_req_size _ _ _ hatt).1; omega)
-  rw [tcp_req_reject _ c hc1 (hnoise c hc2)]; rfl
+  exact tcp_req_reject_isErr _ c hc1 (hnoise c hc2)
 
 /-- clause 2: a reported frame starts within the first 256 offsets, the attempt at its start produced
 it, and every earlier offset was rejected (so none of them starts a complete well-formed frame) -/
@@ -461,7 +518,7 @@ theorem tcp_req_gives_up_unknown (buf : Bytes) (hl : 263 ≤ buf.length)
   have hlt : d + 7 < buf.length := by omega
   have hc : (buf.drop d)[7]? = some buf[d + 7] := by
     rw [List.getElem?_drop, List.getElem?_eq_getElem hlt]
-  rw [tcp_req_reject _ _ hc (hnoise d hd _ (List.getElem?_eq_getElem hlt))]; rfl
+  exact tcp_req_reject_isErr _ _ hc (hnoise d hd _ (List.getElem?_eq_getElem hlt))
 
 /-- clause 3 as an equivalence: an error **exactly** when the buffer is empty, or has at least 257 bytes
 and all of the first 256 offsets are rejected — in particular never when a frame could start there -/
@@ -535,7 +592,7 @@ theorem tcp_rsp_resync (noise frame rest : Bytes) (f : Tcp.Frame)
   apply tcp_rsp_found noise frame rest f hn _ hatt
   intro i hi
   obtain ⟨c, hc1, hc2⟩ := noise_byte_mem 7 noise frame rest i hi (by have := (tcp_rsp_size _ _ _ hatt).1; omega)
-  rw [tcp_rsp_reject _ c hc1 (hnoise c hc2)]; rfl
+  exact tcp_rsp_reject_isErr _ c hc1 (hnoise c hc2)
 
 /-- clause 2: a reported frame starts within the first 256 offsets, the attempt at its start produced
 it, and every earlier offset was rejected (so none of them starts a complete well-formed frame) -/
@@ -570,7 +627,7 @@ theorem tcp_rsp_gives_up_unknown (buf : Bytes) (hl : 263 ≤ buf.length)
   have hlt : d + 7 < buf.length := by omega
   have hc : (buf.drop d)[7]? = some buf[d + 7] := by
     rw [List.getElem?_drop, List.getElem?_eq_getElem hlt]
-  rw [tcp_rsp_reject _ _ hc (hnoise d hd _ (List.getElem?_eq_getElem hlt))]; rfl
+  exact tcp_rsp_reject_isErr _ _ hc (hnoise d hd _ (List.getElem?_eq_getElem hlt))
 
 /-- clause 3 as an equivalence: an error **exactly** when the buffer is empty, or has at least 257 bytes
 and all of the first 256 offsets are rejected — in particular never when a frame could start there -/
@@ -609,6 +666,264 @@ theorem tcp_rsp_panic_iff (buf : Bytes) :
       ∃ d, d ≤ 255 ∧ d + 1 < buf.length ∧ (∀ i, i < d → (Tcp.attemptRsp (buf.drop i)).isErr = true) ∧
         Tcp.attemptRsp (buf.drop d) = .panic :=
   scan_panic_iff Tcp.attemptRsp buf
+
+/-! ### The MBAP header is checked as soon as it is visible (repair of `tcp::decode`)
+
+Since the repair a candidate whose protocol identifier is visible and not 0, or whose length field is
+visible and contradicts the predicted PDU length, is rejected at once — before it, only once as many
+bytes as the candidate announced had arrived, and until then the scanner answered 'incomplete' and
+did not look at later offsets. -/
+
+/-- **a visible non-zero protocol identifier rejects the candidate**, in either direction, whatever the
+other bytes are and however few bytes follow (four bytes are enough; never 'incomplete') -/
+theorem tcp_attempt_rejects_bad_protocol (raw : Bytes) (h4 : 4 ≤ raw.length)
+    (hbad : ¬ (raw[2] = 0 ∧ raw[3] = 0)) :
+    rd16 raw[2] raw[3] ≠ 0 ∧
+    Tcp.attemptReq raw = .err (.protocolNotModbus (rd16 raw[2] raw[3])) ∧
+    Tcp.attemptRsp raw = .err (.protocolNotModbus (rd16 raw[2] raw[3])) := by
+  have hp := Tcp.checkProtocolId_bad h4 hbad
+  refine ⟨fun hz => hbad ((Tcp.rd16_eq_zero_iff _ _).1 hz), ?_, ?_⟩
+  · rw [Tcp.attemptReq_eq]; exact Tcp.attemptOf_proto_err _ hp
+  · rw [Tcp.attemptRsp_eq]; exact Tcp.attemptOf_proto_err _ hp
+
+example : Tcp.attemptReq [0x42, 0x42, 0x00, 0x01] = .err (.protocolNotModbus (rd16 0x00 0x01)) :=
+  (tcp_attempt_rejects_bad_protocol [0x42, 0x42, 0x00, 0x01] (by decide) (by decide)).2.1
+example : Tcp.attemptReq [0x42, 0x42, 0x00, 0x01] = .err (.protocolNotModbus 1) := by decide +kernel
+example : Tcp.attemptRsp [0x42, 0x42, 0x00, 0x01, 0x00, 0x00, 0x00, 0x03, 0x11, 0x83, 0x02]
+    = .err (.protocolNotModbus 1) := by decide +kernel
+
+/-- the same for the attempt at offset `i` of a buffer, with optional indexing -/
+theorem tcp_stray_offset_rejected (pred : Bytes → Res (Option Nat)) (buf : Bytes) (i : Nat)
+    (h : i + 3 < buf.length) (hs : ¬ (buf[i + 2]? = some 0 ∧ buf[i + 3]? = some 0)) :
+    ∃ p, Tcp.attemptOf pred (buf.drop i) = .err (.protocolNotModbus p) := by
+  have hl : 4 ≤ (buf.drop i).length := by rw [List.length_drop]; omega
+  have e2 : (buf.drop i)[2] = buf[i + 2] := List.getElem_drop ..
+  have e3 : (buf.drop i)[3] = buf[i + 3] := List.getElem_drop ..
+  have hbad : ¬ ((buf.drop i)[2] = 0 ∧ (buf.drop i)[3] = 0) := by
+    rintro ⟨a, b⟩
+    apply hs
+    rw [List.getElem?_eq_getElem (by omega), List.getElem?_eq_getElem (by omega), ← e2, ← e3, a, b]
+    exact ⟨rfl, rfl⟩
+  exact ⟨_, Tcp.attemptOf_proto_err _ (Tcp.checkProtocolId_bad hl hbad)⟩
+
+/-- a visible length field that contradicts the predicted PDU length, generic in the predictor -/
+theorem tcp_attemptOf_bad_length (pred : Bytes → Res (Option Nat)) (raw : Bytes) (n : Nat)
+    (h6 : 6 ≤ raw.length) (h2 : raw[2] = 0) (h3 : raw[3] = 0)
+    (hlen : (rd16 raw[4] raw[5]).toNat ≠ n + 1) (hpred : pred raw = .ok (some n))
+    (hn : 7 + n < usizeLimit) :
+    Tcp.attemptOf pred raw = .err (.lengthMismatch (rd16 raw[4] raw[5]).toNat (n + 1)) := by
+  have hp := Tcp.checkProtocolId_good (by omega) h2 h3
+  have hne : raw ≠ [] := by intro h; rw [h] at h6; simp at h6
+  rw [Tcp.attemptOf_proto_ok _ hp]
+  exact mkAttempt_extract_err _ _ _ _ _ _ hpred
+    (Tcp.extractFrame_len_err hne hn hp (Tcp.checkLengthField_bad n h6 hlen))
+
+/-- **a visible length field that contradicts the predicted PDU length rejects the candidate**: protocol
+identifier 0, the predictor says `n`, the length field is not `n + 1` ⇒ `LengthMismatch`, also when
+fewer than `n + 7` bytes are present (before the repair: 'incomplete' until `n + 7` bytes had arrived) -/
+theorem tcp_attempt_rejects_bad_length (raw : Bytes) (n : Nat) (h6 : 6 ≤ raw.length)
+    (h2 : raw[2] = 0) (h3 : raw[3] = 0) (hlen : (rd16 raw[4] raw[5]).toNat ≠ n + 1) :
+    (Tcp.requestPduLen raw = .ok (some n) →
+      Tcp.attemptReq raw = .err (.lengthMismatch (rd16 raw[4] raw[5]).toNat (n + 1))) ∧
+    (Tcp.responsePduLen raw = .ok (some n) →
+      Tcp.attemptRsp raw = .err (.lengthMismatch (rd16 raw[4] raw[5]).toNat (n + 1))) := by
+  constructor
+  · intro hpred
+    have := Total.Tcp.requestPduLen_le raw n hpred
+    rw [Tcp.attemptReq_eq]
+    exact tcp_attemptOf_bad_length _ raw n h6 h2 h3 hlen hpred (by unfold usizeLimit; omega)
+  · intro hpred
+    have := Total.Tcp.responsePduLen_le raw n hpred
+    rw [Tcp.attemptRsp_eq]
+    exact tcp_attemptOf_bad_length _ raw n h6 h2 h3 hlen hpred (by unfold usizeLimit; omega)
+
+/-- eight bytes: ReadHoldingRegisters request (5 PDU bytes announced by the function code) under a
+length field of 9 instead of 6; the other 4 bytes of the candidate are not there and not waited for -/
+example : Tcp.attemptReq [0x00, 0x01, 0x00, 0x00, 0x00, 0x09, 0x11, 0x03]
+    = .err (.lengthMismatch (rd16 0x00 0x09).toNat (5 + 1)) :=
+  (tcp_attempt_rejects_bad_length [0x00, 0x01, 0x00, 0x00, 0x00, 0x09, 0x11, 0x03] 5 (by decide) (by decide)
+    (by decide) (by decide)).1 (by decide +kernel)
+example : Tcp.attemptReq [0x00, 0x01, 0x00, 0x00, 0x00, 0x09, 0x11, 0x03] = .err (.lengthMismatch 9 6) := by
+  decide +kernel
+/-- the motivating candidate: function 03 response with byte count 0x11 under the length field 0x0003 -/
+example : Tcp.attemptRsp [0x00, 0x01, 0x00, 0x00, 0x00, 0x03, 0x11, 0x03, 0x11]
+    = .err (.lengthMismatch (rd16 0x00 0x03).toNat (19 + 1)) :=
+  (tcp_attempt_rejects_bad_length [0x00, 0x01, 0x00, 0x00, 0x00, 0x03, 0x11, 0x03, 0x11] 19 (by decide)
+    (by decide) (by decide) (by decide)).2 (by decide +kernel)
+example : Tcp.attemptRsp [0x00, 0x01, 0x00, 0x00, 0x00, 0x03, 0x11, 0x03, 0x11] = .err (.lengthMismatch 3 20) := by
+  decide +kernel
+
+/-- **bytes-only resynchronisation, request direction** (no hypothesis about function codes): up to 255
+stray bytes, then a well-formed TCP frame, then anything; if at no noise offset `i` the two bytes at
+positions `i + 2`, `i + 3` of the buffer (what that offset reads as protocol identifier) are both zero,
+the scanner returns exactly that frame at `start = noise.length` -/
+theorem tcp_req_resync_stray (tid : UInt16) (uid : UInt8) (pdu : Bytes)
+    (hc : Spec.PduComplete .req pdu) (hn : pdu.length + 1 < 65536) (noise rest : Bytes)
+    (hnl : noise.length ≤ 255)
+    (hstray : ∀ i, i < noise.length →
+      ¬ ((noise ++ Spec.tcpFrame tid uid pdu ++ rest)[i + 2]? = some 0 ∧
+         (noise ++ Spec.tcpFrame tid uid pdu ++ rest)[i + 3]? = some 0)) :
+    Tcp.decodeReq (noise ++ Spec.tcpFrame tid uid pdu ++ rest)
+      = .ok (some ((⟨tid, uid, pdu⟩ : Tcp.Frame), ⟨noise.length, (Spec.tcpFrame tid uid pdu).length⟩)) := by
+  have g := Reception.tcp_req_good tid uid pdu hc hn
+  have hatt : Tcp.attemptReq (Spec.tcpFrame tid uid pdu ++ rest)
+      = .ok (some ((⟨tid, uid, pdu⟩ : Tcp.Frame), (Spec.tcpFrame tid uid pdu).length)) := by
+    simpa using (scan_no_later Tcp.attemptReq _ _ ⟨0, _⟩ (g.whole rest)).2.2.1
+  apply tcp_req_found noise _ rest _ hnl _ hatt
+  intro i hi
+  have hlen : i + 3 < (noise ++ Spec.tcpFrame tid uid pdu ++ rest).length := by
+    simp only [List.length_append, Reception.tcpFrame_length]; omega
+  obtain ⟨p, hp⟩ := tcp_stray_offset_rejected Tcp.requestPduLen _ i hlen (hstray i hi)
+  rw [Tcp.attemptReq_eq, hp]; rfl
+
+/-- **bytes-only resynchronisation, response direction** -/
+theorem tcp_rsp_resync_stray (tid : UInt16) (uid : UInt8) (pdu : Bytes)
+    (hc : Spec.PduComplete .rsp pdu) (hn : pdu.length + 1 < 65536) (noise rest : Bytes)
+    (hnl : noise.length ≤ 255)
+    (hstray : ∀ i, i < noise.length →
+      ¬ ((noise ++ Spec.tcpFrame tid uid pdu ++ rest)[i + 2]? = some 0 ∧
+         (noise ++ Spec.tcpFrame tid uid pdu ++ rest)[i + 3]? = some 0)) :
+    Tcp.decodeRsp (noise ++ Spec.tcpFrame tid uid pdu ++ rest)
+      = .ok (some ((⟨tid, uid, pdu⟩ : Tcp.Frame), ⟨noise.length, (Spec.tcpFrame tid uid pdu).length⟩)) := by
+  have g := Reception.tcp_rsp_good tid uid pdu hc hn
+  have hatt : Tcp.attemptRsp (Spec.tcpFrame tid uid pdu ++ rest)
+      = .ok (some ((⟨tid, uid, pdu⟩ : Tcp.Frame), (Spec.tcpFrame tid uid pdu).length)) := by
+    simpa using (scan_no_later Tcp.attemptRsp _ _ ⟨0, _⟩ (g.whole rest)).2.2.1
+  apply tcp_rsp_found noise _ rest _ hnl _ hatt
+  intro i hi
+  have hlen : i + 3 < (noise ++ Spec.tcpFrame tid uid pdu ++ rest).length := by
+    simp only [List.length_append, Reception.tcpFrame_length]; omega
+  obtain ⟨p, hp⟩ := tcp_stray_offset_rejected Tcp.responsePduLen _ i hlen (hstray i hi)
+  rw [Tcp.attemptRsp_eq, hp]; rfl
+
+/-- the hypothesis of `tcp_*_resync_stray` from a condition on the noise bytes and the transaction id:
+the positions `i + 2`, `i + 3` for `i < noise.length` lie in the noise, in the transaction id, or are the
+first byte (0) of the frame's protocol identifier; so it suffices that no noise byte is zero and the LOW
+byte of the transaction id is not zero (the pair read at the last noise offset is (low byte, 0)) -/
+theorem stray_of_nonzero_noise (tid : UInt16) (uid : UInt8) (pdu noise rest : Bytes)
+    (hnz : ∀ c, c ∈ noise → c ≠ 0) (htid : Spec.lo tid ≠ 0) :
+    ∀ i, i < noise.length →
+      ¬ ((noise ++ Spec.tcpFrame tid uid pdu ++ rest)[i + 2]? = some 0 ∧
+         (noise ++ Spec.tcpFrame tid uid pdu ++ rest)[i + 3]? = some 0) := by
+  intro i hi
+  have hin : ∀ k, k < noise.length → (noise ++ Spec.tcpFrame tid uid pdu ++ rest)[k]? ≠ some 0 := by
+    intro k hk h
+    rw [List.append_assoc, List.getElem?_append_left hk, List.getElem?_eq_getElem hk] at h
+    exact hnz _ (List.getElem_mem hk) (Option.some.inj h)
+  have hlo : (noise ++ Spec.tcpFrame tid uid pdu ++ rest)[noise.length + 1]? ≠ some 0 := by
+    intro h
+    rw [List.append_assoc, List.getElem?_append_right (by omega)] at h
+    have e : noise.length + 1 - noise.length = 1 := by omega
+    rw [e] at h
+    have : (Spec.tcpFrame tid uid pdu ++ rest)[1]? = some (Spec.lo tid) := by
+      simp [Spec.tcpFrame, Spec.word]
+    rw [this] at h
+    exact htid (Option.some.inj h)
+  rintro ⟨a, b⟩
+  rcases Nat.lt_or_ge (i + 3) noise.length with h | h
+  · exact hin _ h b
+  · rcases Nat.lt_or_ge (i + 2) noise.length with h' | h'
+    · exact hin _ h' a
+    · rcases Nat.lt_or_ge (i + 2) (noise.length + 1) with h'' | h''
+      · have e : i + 3 = noise.length + 1 := by omega
+        rw [e] at b; exact hlo b
+      · have e : i + 2 = noise.length + 1 := by omega
+        rw [e] at a; exact hlo a
+
+/-- **corollary**: noise without a zero byte in front of a well-formed frame whose transaction id has a
+non-zero low byte is skipped, whatever the function codes.  (With a zero low byte — every 256th
+transaction of a counting client — the last noise offset reads protocol identifier 0 and is decided by the
+length check or the predictor, see `tcp_req_stray_still_waits_witness`.) -/
+theorem tcp_req_resync_nonzero_noise (tid : UInt16) (uid : UInt8) (pdu : Bytes)
+    (hc : Spec.PduComplete .req pdu) (hn : pdu.length + 1 < 65536) (noise rest : Bytes)
+    (hnl : noise.length ≤ 255) (hnz : ∀ c, c ∈ noise → c ≠ 0) (htid : Spec.lo tid ≠ 0) :
+    Tcp.decodeReq (noise ++ Spec.tcpFrame tid uid pdu ++ rest)
+      = .ok (some ((⟨tid, uid, pdu⟩ : Tcp.Frame), ⟨noise.length, (Spec.tcpFrame tid uid pdu).length⟩)) :=
+  tcp_req_resync_stray tid uid pdu hc hn noise rest hnl (stray_of_nonzero_noise tid uid pdu noise rest hnz htid)
+
+theorem tcp_rsp_resync_nonzero_noise (tid : UInt16) (uid : UInt8) (pdu : Bytes)
+    (hc : Spec.PduComplete .rsp pdu) (hn : pdu.length + 1 < 65536) (noise rest : Bytes)
+    (hnl : noise.length ≤ 255) (hnz : ∀ c, c ∈ noise → c ≠ 0) (htid : Spec.lo tid ≠ 0) :
+    Tcp.decodeRsp (noise ++ Spec.tcpFrame tid uid pdu ++ rest)
+      = .ok (some ((⟨tid, uid, pdu⟩ : Tcp.Frame), ⟨noise.length, (Spec.tcpFrame tid uid pdu).length⟩)) :=
+  tcp_rsp_resync_stray tid uid pdu hc hn noise rest hnl (stray_of_nonzero_noise tid uid pdu noise rest hnz htid)
+
+/-- **the buffer of the repaired defect**: two stray bytes in front of the exception response
+`00 01 00 00 00 03 11 83 02`.  From offset 0 the low byte 0x03 of the real length field is read as function
+03 with byte count 0x11; before the repair the answer was `ok none` for ever, now the frame is found. -/
+example : Tcp.decodeRsp [0x42, 0x42, 0x00, 0x01, 0x00, 0x00, 0x00, 0x03, 0x11, 0x83, 0x02]
+    = .ok (some (⟨0x0001, 0x11, [0x83, 0x02]⟩, ⟨2, 9⟩)) := by decide +kernel
+/-- … as an instance of `tcp_rsp_resync_nonzero_noise` -/
+example : Tcp.decodeRsp ([0x42, 0x42] ++ Spec.tcpFrame 0x0001 0x11 [0x83, 0x02] ++ [])
+    = .ok (some (⟨0x0001, 0x11, [0x83, 0x02]⟩, ⟨2, 9⟩)) :=
+  tcp_rsp_resync_nonzero_noise 0x0001 0x11 [0x83, 0x02] (by unfold Spec.PduComplete; decide) (by decide)
+    [0x42, 0x42] [] (by decide) (by decide) (by decide)
+example : [0x42, 0x42] ++ Spec.tcpFrame 0x0001 0x11 [0x83, 0x02] ++ []
+    = [0x42, 0x42, 0x00, 0x01, 0x00, 0x00, 0x00, 0x03, 0x11, 0x83, 0x02] := by decide
+/-- … and through the client-side ADU decoder: the exception -/
+example : Tcp.decodeResponse [0x42, 0x42, 0x00, 0x01, 0x00, 0x00, 0x00, 0x03, 0x11, 0x83, 0x02]
+    = .ok (some (1, 0x11, .error ⟨.readHoldingRegisters, .illegalDataAddress⟩)) := by decide +kernel
+/-- request direction, 255 noise bytes that ARE function codes (0x03): skipped all the same -/
+example : Tcp.decodeReq (List.replicate 255 0x03 ++ Spec.tcpFrame 0x2A2B 0x2C [0x01, 0x00, 0x01, 0x00, 0x02] ++ [0x00])
+    = .ok (some (⟨0x2A2B, 0x2C, [0x01, 0x00, 0x01, 0x00, 0x02]⟩, ⟨255, 12⟩)) := by
+  have h := tcp_req_resync_nonzero_noise 0x2A2B 0x2C [0x01, 0x00, 0x01, 0x00, 0x02]
+    (by unfold Spec.PduComplete; decide) (by decide) (List.replicate 255 0x03) [0x00] (by decide +kernel)
+    (by intro c hc; rw [List.mem_replicate] at hc; rw [hc.2]; decide) (by decide)
+  rw [List.length_replicate] at h
+  exact h
+
+/-- **recorded reading — what the repair does not cover**: a candidate is refuted by the length field
+only once the predictor has produced a length.  `42 | 01 00 00 00 00 02 0F 07` is one stray byte in
+front of the complete well-formed request (transaction 0x0100, unit 0x0F, ReadExceptionStatus).  From
+offset 0 the protocol identifier read is `00 00`, the length field read is `00 00` (which no frame can
+carry), the unit id 0x0F is read as function code WriteMultipleCoils, whose byte count (offset 12) has not
+arrived: the predictor says 'incomplete' and so does `tcp::decode`, although the frame at offset 1 is
+complete.  Four more bytes resolve it. -/
+theorem tcp_req_stray_still_waits_witness :
+    Tcp.decodeReq ([0x42] ++ Spec.tcpFrame 0x0100 0x0F [0x07]) = .ok none ∧
+    Tcp.decodeReq (Spec.tcpFrame 0x0100 0x0F [0x07]) = .ok (some (⟨0x0100, 0x0F, [0x07]⟩, ⟨0, 8⟩)) ∧
+    Tcp.decodeReq ([0x42] ++ Spec.tcpFrame 0x0100 0x0F [0x07] ++ [1, 2, 3, 4])
+      = .ok (some (⟨0x0100, 0x0F, [0x07]⟩, ⟨1, 8⟩)) := by decide +kernel
+
+/-- **bounded give-up on a non-Modbus stream**: at least 259 bytes in which none of the first 256 offsets
+reads protocol identifier 0 ⇒ an error (`ProtocolNotModbus`), in both directions, never 'incomplete' -/
+theorem tcp_gives_up_nonzero_protocol (buf : Bytes) (hl : 259 ≤ buf.length)
+    (hs : ∀ i, i < 256 → ¬ (buf[i + 2]? = some 0 ∧ buf[i + 3]? = some 0)) :
+    (∃ p, Tcp.decodeReq buf = .err (.protocolNotModbus p)) ∧
+    (∃ p, Tcp.decodeRsp buf = .err (.protocolNotModbus p)) := by
+  constructor
+  · have herr : ∀ d, d < 256 → (Tcp.attemptReq (buf.drop d)).isErr = true := by
+      intro d hd
+      obtain ⟨p, hp⟩ := tcp_stray_offset_rejected Tcp.requestPduLen buf d (by omega) (hs d hd)
+      rw [Tcp.attemptReq_eq, hp]; rfl
+    obtain ⟨e, he, hdec⟩ := tcp_req_gives_up buf (by omega) herr
+    obtain ⟨p, hp⟩ := tcp_stray_offset_rejected Tcp.requestPduLen buf 255 (by omega) (hs 255 (by omega))
+    rw [Tcp.attemptReq_eq, hp] at he
+    exact ⟨p, by rw [hdec, ← Res.err.inj he]⟩
+  · have herr : ∀ d, d < 256 → (Tcp.attemptRsp (buf.drop d)).isErr = true := by
+      intro d hd
+      obtain ⟨p, hp⟩ := tcp_stray_offset_rejected Tcp.responsePduLen buf d (by omega) (hs d hd)
+      rw [Tcp.attemptRsp_eq, hp]; rfl
+    obtain ⟨e, he, hdec⟩ := tcp_rsp_gives_up buf (by omega) herr
+    obtain ⟨p, hp⟩ := tcp_stray_offset_rejected Tcp.responsePduLen buf 255 (by omega) (hs 255 (by omega))
+    rw [Tcp.attemptRsp_eq, hp] at he
+    exact ⟨p, by rw [hdec, ← Res.err.inj he]⟩
+
+/-- 259 bytes of 0x42 -/
+example : Tcp.decodeReq (List.replicate 259 0x42) = .err (.protocolNotModbus 0x4242) ∧
+    Tcp.decodeRsp (List.replicate 259 0x42) = .err (.protocolNotModbus 0x4242) := by decide +kernel
+example : ∃ p, Tcp.decodeRsp (List.replicate 259 0x42) = .err (.protocolNotModbus p) :=
+  (tcp_gives_up_nonzero_protocol (List.replicate 259 0x42) (by decide +kernel) (by
+    intro i hi h
+    have := h.1
+    rw [List.getElem?_replicate, if_pos (by omega)] at this
+    exact absurd (Option.some.inj this) (by decide))).2
+/-- recorded reading: 257 and 258 bytes of 0x42 are still 'incomplete' — offset 255 then has fewer than four
+bytes, its protocol identifier is not visible and its attempt is 'incomplete' (with the function code
+criterion of `tcp_*_gives_up_unknown`, 263 bytes are needed) -/
+example : Tcp.decodeReq (List.replicate 257 0x42) = .ok none ∧ Tcp.decodeRsp (List.replicate 257 0x42) = .ok none ∧
+    Tcp.decodeReq (List.replicate 258 0x42) = .ok none ∧ Tcp.decodeRsp (List.replicate 258 0x42) = .ok none := by
+  decide +kernel
 
 /-! ### Concrete instances (kernel-evaluated) -/
 
@@ -653,10 +968,19 @@ example : Tcp.decodeRsp (List.replicate 255 0x42 ++ tcpRsp)
     = .ok (some (⟨0x2A2B, 0x11, [0x06, 0x00, 0x01, 0x00, 0x02]⟩, ⟨255, 12⟩)) := by decide +kernel
 example : (Tcp.decodeRsp (List.replicate 256 0x42 ++ tcpRsp)).isErr = true := by decide +kernel
 
-/-- noise that *can* be read as a plausible frame start is outside clause 1: here the TCP length byte
-0x04 of a following frame is read as function code 4 with byte count 0x11, a frame that is not yet
-complete, so the scanner waits instead of skipping (faithful to the crate) -/
+/-- before the repair of `tcp::decode` this buffer was answered 'incomplete': the TCP length byte 0x04 of
+the frame is read from offset 18 as function code 4 with byte count 0x11, a frame that is not yet
+complete.  The protocol identifier visible at offset 18 (bytes 20, 21 = 0x0102) refutes that candidate,
+which is now rejected at once, and the frame is found. -/
 example : Tcp.decodeRsp (List.replicate 20 0x42 ++ [0x01, 0x02, 0x00, 0x00, 0x00, 0x04, 0x11, 0x01, 0x01, 0x05])
+    = .ok (some (⟨0x0102, 0x11, [0x01, 0x01, 0x05]⟩, ⟨20, 10⟩)) := by decide +kernel
+
+/-- noise that *can* be read as a plausible frame start is outside clause 1: at offset 11 the bytes
+`42 42 00 00 00 15 11 03 12` are a consistent MBAP header (protocol 0, length 0x15 = 2 + 0x12 + 1) of a
+ReadHoldingRegisters response with byte count 0x12 that is not yet complete, so the scanner waits instead
+of skipping to the complete frame at offset 20 (faithful to the crate) -/
+example : Tcp.decodeRsp (List.replicate 11 0x42 ++ [0x42, 0x42, 0x00, 0x00, 0x00, 0x15, 0x11, 0x03, 0x12] ++
+      [0x01, 0x02, 0x00, 0x00, 0x00, 0x04, 0x11, 0x01, 0x01, 0x05])
     = .ok none := by decide +kernel
 
 /-! ### The hypotheses of the theorems above are satisfiable -/
